@@ -825,3 +825,187 @@ Qed.
 Lemma pairwise_disj_nth (out : list (list nat)) : pairwise disj out ->
   forall i j, i < j -> j < length out -> forall x, In x (nth i out []) -> ~ In x (nth j out []).
 Proof. intros P i j Lij Lj x. apply (pairwise_nth disj out [] P i j Lij Lj). Qed.
+
+(* ------------------------------------------------------------------ *)
+(* partial_cluster for any clustering routine *)
+
+(* the contract of a clustering routine: the dictionary it returns has an entry for
+   every matrix position ... *)
+Definition clus_total (clus : mat -> list (nat * nat)) : Prop :=
+  forall m p, p < length m -> exists v, assoc p (rev (clus m)) = Some v.
+
+(* ... and cluster ids lie in 1..n *)
+Definition clus_ranged (clus : mat -> list (nat * nat)) : Prop :=
+  forall m p v, p < length m -> assoc p (rev (clus m)) = Some v -> 1 <= v <= length m.
+
+Lemma ids_before_nth rv n k ids : ids_before rv n k = Some ids ->
+  length ids = n /\ forall p, p < n -> exists v, assoc p (rev rv) = Some v /\ nth p ids 0 = v + k.
+Proof.
+  unfold ids_before. intros H. apply sequence_nth in H. destruct H as [L N].
+  rewrite map_length, seq_length in L, N. split; [exact L|]. intros p Lp.
+  specialize (N p 0 Lp). rewrite nth_map_seq in N by exact Lp. cbn [plus] in N.
+  destruct (assoc p (rev rv)) as [v|] eqn:A; [|discriminate].
+  cbn [option_map] in N. injection N as N'. exists v. split; [reflexivity|]. symmetry. exact N'.
+Qed.
+
+Lemma ids_from_some post rv words m k :
+  (forall p, p < length m -> exists v, assoc p (rev rv) = Some v) ->
+  exists ids, ids_from post rv words m k = Some ids.
+Proof.
+  intros T. unfold ids_from.
+  assert (S : exists ids, ids_before rv (length m) k = Some ids).
+  { unfold ids_before. apply sequence_some. intros i Hi. apply in_seq in Hi.
+    destruct (T i) as [v ->]; [lia|]. eexists. reflexivity. }
+  destruct S as [ids ->]. eexists. reflexivity.
+Qed.
+
+Lemma ids_from_range post rv words m k ids : ids_from post rv words m k = Some ids ->
+  (post = true \/ forall p v, p < length m -> assoc p (rev rv) = Some v -> 1 <= v <= length m) ->
+  forall p, p < length m -> k < nth p ids 0 <= k + length m.
+Proof.
+  unfold ids_from. destruct (ids_before rv (length m) k) as [ids0|] eqn:B; [|discriminate].
+  intros H R p Lp. inversion H; subst ids. clear H. destruct post.
+  - apply post_ids_range. exact Lp.
+  - destruct R as [R|R]; [discriminate|].
+    apply ids_before_nth in B. destruct B as [_ N]. destruct (N p Lp) as [v [A ->]].
+    specialize (R p v Lp A). lia.
+Qed.
+
+Lemma ids_from_unique rv words m k ids : ids_from true rv words m k = Some ids ->
+  forall p q, p < length m -> q < length m -> p <> q -> nth p words 0 = nth q words 0 ->
+    nth p ids 0 <> nth q ids 0.
+Proof.
+  unfold ids_from. destruct (ids_before rv (length m) k) as [ids0|]; [|discriminate].
+  intros H. inversion H; subst ids. intros p q. apply post_ids_distinct.
+Qed.
+
+(* the flat linkage methods meet the contract *)
+Lemma flat_revert_length cf m : length (if c_ward cf then ward_matrix m else m) = length m.
+Proof. apply flat_cluster_length_arg. Qed.
+
+Lemma flat_revert_total cf : clus_total (flat_revert cf).
+Proof.
+  intros m p Lp. unfold flat_revert, flat_cluster. rewrite flat_revert_length.
+  destruct (ids_before_some Q qleb (linkf (c_meth cf)) (dm (if c_ward cf then ward_matrix m else m))
+              (length m) (c_thr cf) 0) as [ids B].
+  apply ids_before_nth in B. destruct B as [_ N]. destruct (N p Lp) as [v [A _]]. exists v. exact A.
+Qed.
+
+Lemma flat_revert_ranged cf : clus_ranged (flat_revert cf).
+Proof.
+  intros m p v Lp A. unfold flat_revert, flat_cluster in A. rewrite flat_revert_length in A.
+  apply assoc_in in A. apply in_rev in A. apply revert_inv in A. destruct A as [c [vs [Hc [_ ->]]]].
+  assert (c < length m). { eapply flat_keys_lt. eapply in_keys. exact Hc. }
+  lia.
+Qed.
+
+Section AnyTheorems.
+  Variable dist : list Z -> list Z -> ores.
+  Variable imap post : bool.
+  Variable clus : mat -> list (nat * nat).
+
+  Lemma cluster_concept_any_inv c k o : cluster_concept_any dist imap post clus c k = Ok o ->
+    exists m ids, concept_matrix dist imap c = Ok m /\
+                  ids_from post (clus m) (map e_word (tracer c)) m k = Some ids /\
+                  o = concept_out c (map e_word (tracer c)) ids.
+  Proof.
+    unfold cluster_concept_any. destruct (concept_matrix dist imap c) as [m|e|] eqn:M; try discriminate.
+    destruct (ids_from post (clus m) (map e_word (tracer c)) m k) as [ids|] eqn:I; [|discriminate].
+    intros H. inversion H; subst. exists m, ids. repeat split; [exact I].
+  Qed.
+
+  Lemma cluster_loop_any_inv c tl k out : cluster_loop_any dist imap post clus (c :: tl) k = Ok out ->
+    exists o os, cluster_concept_any dist imap post clus c k = Ok o /\
+                 cluster_loop_any dist imap post clus tl (k + length (tracer c) + 1) = Ok os /\ out = o :: os.
+  Proof.
+    cbn [cluster_loop_any]. destruct (cluster_concept_any dist imap post clus c k) as [o|e|] eqn:C; try discriminate.
+    destruct (cluster_loop_any dist imap post clus tl (k + length (tracer c) + 1)) as [os|e|] eqn:Lp; try discriminate.
+    intros H. inversion H; subst. exists o, os. repeat split.
+  Qed.
+
+  Theorem cluster_loop_any_one_id wl : Forall (fun c => NoDup (map fst c)) wl ->
+    forall k out, cluster_loop_any dist imap post clus wl k = Ok out -> one_id_per_morpheme wl out.
+  Proof.
+    induction wl as [|c tl IH]; intros N k out H.
+    - cbn in H. inversion H. constructor.
+    - apply cluster_loop_any_inv in H. destruct H as [o [os [Hc [Hl ->]]]].
+      inversion N as [|? ? Nc Nt]; subst. constructor.
+      + apply cluster_concept_any_inv in Hc. destruct Hc as [m [ids [_ [_ ->]]]]. apply concept_out_ok. exact Nc.
+      + eapply IH; eassumption.
+  Qed.
+
+  Lemma cluster_concept_any_range c k o : (post = true \/ clus_ranged clus) ->
+    cluster_concept_any dist imap post clus c k = Ok o ->
+    forall x, In x (ids_of o) -> k < x <= k + length (tracer c).
+  Proof.
+    intros R H x Hx. apply cluster_concept_any_inv in H. destruct H as [m [ids [Hm [Hi ->]]]].
+    apply ids_of_concept_out in Hx. destruct Hx as [p [L ->]]. rewrite map_length in L.
+    apply concept_matrix_length in Hm. rewrite <- Hm in *. eapply ids_from_range; [exact Hi| |exact L].
+    destruct R as [R|R]; [left; exact R|right]. intros q v Lq A. eapply R; eassumption.
+  Qed.
+
+  Lemma cluster_loop_any_lower wl : (post = true \/ clus_ranged clus) ->
+    forall k out, cluster_loop_any dist imap post clus wl k = Ok out ->
+    Forall (fun o => forall x, In x (ids_of o) -> k < x) out.
+  Proof.
+    intros R. induction wl as [|c tl IH]; intros k out H.
+    - cbn in H. inversion H. constructor.
+    - apply cluster_loop_any_inv in H. destruct H as [o [os [Hc [Hl ->]]]]. constructor.
+      + intros x Hx. eapply cluster_concept_any_range in Hx; [|exact R|exact Hc]. lia.
+      + eapply Forall_impl; [|eapply IH; exact Hl]. cbn beta. intros o' H x Hx. apply H in Hx. lia.
+  Qed.
+
+  Theorem cluster_loop_any_disjoint wl : (post = true \/ clus_ranged clus) ->
+    forall k out, cluster_loop_any dist imap post clus wl k = Ok out -> concept_disjoint out.
+  Proof.
+    intros R. unfold concept_disjoint. induction wl as [|c tl IH]; intros k out H.
+    - cbn in H. inversion H. exact I.
+    - apply cluster_loop_any_inv in H. destruct H as [o [os [Hc [Hl ->]]]]. cbn [map pairwise]. split.
+      + apply Forall_forall. intros l Hl'. apply in_map_iff in Hl'. destruct Hl' as [o' [<- Ho']].
+        pose proof (cluster_loop_any_lower tl R _ _ Hl) as Low. rewrite Forall_forall in Low.
+        intros x Hx Hx'. eapply cluster_concept_any_range in Hx; [|exact R|exact Hc]. apply (Low o' Ho') in Hx'. lia.
+      + eapply IH. exact Hl.
+  Qed.
+
+  Theorem cluster_loop_any_unique wl : post = true ->
+    forall k out, cluster_loop_any dist imap post clus wl k = Ok out -> unique_in_word out.
+  Proof.
+    intros P. unfold unique_in_word. induction wl as [|c tl IH]; intros k out H.
+    - cbn in H. inversion H. constructor.
+    - apply cluster_loop_any_inv in H. destruct H as [o [os [Hc [Hl ->]]]]. constructor.
+      + apply cluster_concept_any_inv in Hc. destruct Hc as [m [ids [Hm [Hi ->]]]].
+        apply concept_matrix_length in Hm. unfold concept_out. apply Forall_forall. intros wo Hwo.
+        apply in_map_iff in Hwo. destruct Hwo as [w [<- _]]. cbn [snd]. apply word_ids_nodup.
+        rewrite map_length. rewrite <- Hm. rewrite P in Hi. eapply ids_from_unique. exact Hi.
+      + eapply IH. exact Hl.
+  Qed.
+
+  Theorem cluster_loop_any_total wl : (forall a b, exists q, dist a b = Dist q) -> clus_total clus ->
+    forall k, exists out, cluster_loop_any dist imap post clus wl k = Ok out.
+  Proof.
+    intros T C. induction wl as [|c tl IH]; intros k; cbn [cluster_loop_any]; [eexists; reflexivity|].
+    unfold cluster_concept_any. destruct (concept_matrix_total dist imap c T) as [m ->].
+    destruct (ids_from_some post (clus m) (map e_word (tracer c)) m k (C m)) as [ids ->].
+    destruct (IH (k + length (tracer c) + 1)) as [os ->]. eexists; reflexivity.
+  Qed.
+End AnyTheorems.
+
+(* the model of the flat linkage methods is the instance [flat_revert] *)
+Lemma cluster_loop_flat dist cf cs : forall k,
+  cluster_loop dist cf cs k = cluster_loop_any dist (c_imap cf) (c_post cf) (flat_revert cf) cs k.
+Proof.
+  induction cs as [|c tl IH]; intros k; [reflexivity|].
+  cbn [cluster_loop cluster_loop_any]. rewrite IH. reflexivity.
+Qed.
+
+(* checker of the contract on a recorded dictionary *)
+Lemma clus_okb_spec n rv : clus_okb n rv = true <->
+  forall p, p < n -> exists v, assoc p (rev rv) = Some v /\ 1 <= v <= n.
+Proof.
+  unfold clus_okb. rewrite forallb_seq. split.
+  - intros H p Lp. specialize (H p Lp). destruct (assoc p (rev rv)) as [v|]; [|discriminate].
+    apply andb_true_iff in H. destruct H as [H1 H2]. apply Nat.leb_le in H1. apply Nat.leb_le in H2.
+    exists v. split; [reflexivity|lia].
+  - intros H p Lp. destruct (H p Lp) as [v [-> [H1 H2]]].
+    apply andb_true_iff. split; apply Nat.leb_le; assumption.
+Qed.
